@@ -209,6 +209,16 @@ def router_actions(router: str):
         acts.append(("router-acl-remove-rule", {"target_router": router, "position": pos}))
     for verb in ("enable", "disable"):
         acts.append((f"network-port-{verb}", {"target_nodename": router, "port_num": 1}))
+    # a rule using the LAST listed address and wildcard mask as destination (highest ids of the observation encoding)
+    acts.append(
+        (
+            "router-acl-add-rule",
+            dict(
+                target_router=router, position=2, permission="PERMIT", src_ip="10.0.0.1", src_wildcard="0.0.0.3",
+                src_port="DNS", dst_ip="10.0.0.1", dst_wildcard="0.0.0.3", dst_port="DNS", protocol_name="UDP",
+            ),
+        )
+    )
     return acts
 
 
@@ -367,7 +377,9 @@ def mini_scenario(
     nodes_opts = {
         "hosts": obs_hosts, "num_services": 2, "num_applications": 1, "num_folders": 1, "num_files": 1, "num_nics": 1,
         "include_num_access": True, "include_nmne": True, "monitored_traffic": {"icmp": ["NONE"], "tcp": ["DNS", "HTTP"]},
-        "ip_list": ["192.168.1.2", "192.168.1.3"], "wildcard_list": ["0.0.0.1", "0.0.0.255"], "port_list": ["HTTP", "DNS"], "protocol_list": ["ICMP", "TCP", "UDP"],
+        # the four id lists have pairwise different lengths (4, 5, 2, 3): a space leaf sized from the wrong list cannot go unnoticed
+        "ip_list": ["192.168.1.2", "192.168.1.3", "192.168.2.10", "10.0.0.1"], "wildcard_list": ["0.0.0.1", "0.0.0.255", "0.0.255.255", "0.255.255.255", "0.0.0.3"],
+        "port_list": ["HTTP", "DNS"], "protocol_list": ["ICMP", "TCP", "UDP"],
         "num_rules": 4, "num_ports": 2,
     }
     if obs_variant == "surplus":
